@@ -32,12 +32,14 @@ ASSUMPTIONS = [
 ]
 
 GRID = 125000          # us per grid step (1/8 s)
-NSW = 4
+NSW = 6
 SWITCHES = {
     "s0": {"number": "0"},
     "s1": {"number": "1", "type": "NC"},
     "s2": {"number": "2", "events_when_activated": "c03_x2|250ms", "events_when_deactivated": "c03_y2|125ms"},
     "s3": {"number": "3", "type": "NC"},
+    "s4": {"number": "4", "ignore_window_ms": 250},
+    "s5": {"number": "5", "type": "NC", "ignore_window_ms": 375},
 }
 CONFIG = {"switches": SWITCHES, "virtual_platform_start_active_switches": "s3"}
 EVIDS = {"c03_x2": 1002, "c03_y2": 1003}
@@ -48,6 +50,7 @@ FUEL = 400
 # ------------------------------------------------------------------------------------------------
 def gen(rng, tier, i):
     nsw = rng.choice([1, 1, 2, 2, 3, 4])
+    muting = rng.random() < 0.4
     sws = rng.sample(range(NSW), nsw)
     pool = []
     for _ in range(rng.randint(2, 6)):
@@ -62,10 +65,26 @@ def gen(rng, tier, i):
             acts[str(cb)] = [[rng.choice("aar")] + rng.choice(pool) for _ in range(rng.randint(1, 2))]
     ops = []
     t = rng.choice([0, 0, 1, 3])
+    if muting and rng.random() < 0.5:
+        # a hold is pending, the switch is muted and leaves the state before/at/after the deadline
+        sw = rng.choice(sws)
+        cb, st_, ms = rng.randrange(4), rng.randrange(2), rng.choice([250, 375, 500, 1000])
+        pool.append([cb, st_, ms])
+        ops.append([t, sw, "add", cb, st_, ms, rng.randrange(3)])
+        ops.append([t, sw, "rep", 1, 1 - st_, 0])
+        t += rng.choice([0, 1])
+        ops.append([t, sw, "rep", 1, st_, rng.randrange(2)])
+        t += rng.choice([0, 1, 2])
+        ops.append([t, sw, "mute", rng.randrange(2)])
+        t += rng.choice([0, 1, 2, 3, 4])
+        ops.append([t, sw, "rep", rng.randrange(2), rng.randrange(2), rng.randrange(2)])
+        t += rng.choice([0, 1, 2])
     for _ in range(rng.choice([3, 6, 10, 16, 25] if tier == "quick" else [6, 16, 25, 40])):
         sw = rng.choice(sws)
         r = rng.random()
-        if r < 0.40:
+        if muting and rng.random() < 0.15:
+            ops.append([t, sw, rng.choice(["mute", "mute", "unmute"]), rng.randrange(2)])
+        elif r < 0.40 or (sw >= 4 and r < 0.6):
             ops.append([t, sw, "rep", rng.randrange(2), rng.randrange(2), rng.randrange(2)])
         elif r < 0.70:
             ops.append([t, sw, "add"] + rng.choice(pool) + [rng.randrange(3)])
@@ -89,7 +108,7 @@ def _boot():
     m = r.machine
     sc = m.switch_controller
     st = {"rig": r, "sc": sc, "sw": [m.switches["s%d" % i] for i in range(NSW)], "trace": None, "t0": 0.0,
-          "pristine": [], "initreg": []}
+          "pristine": [], "initreg": [], "win": []}
 
     def mk_ev(swi, evid):
         def handler(**kwargs):
@@ -115,10 +134,14 @@ def _boot():
                     row.append([EVIDS[kw["event"]], int(e.ms)])
                 elif fn is not None and getattr(fn, "__name__", "") == "_post_events" and kw.get("state") == s_:
                     row.append([1000 + s_, int(e.ms)])
+                elif fn is not None and getattr(fn, "__name__", "") == "_post_events_with_recycle" \
+                        and kw.get("state") == s_:
+                    row.append([1010 + s_, int(e.ms)])
                 else:
                     raise RuntimeError("unexpected pre-registered switch handler %r" % (e.callback,))
             named.append(row)
         st["initreg"].append(named)
+        st["win"].append(int(round(sw.recycle_secs * 1e6)))
     st["invert"] = [int(sw.invert) for sw in st["sw"]]
     return st
 
@@ -140,11 +163,24 @@ def _wake_handles(st, sw):
     return out
 
 
+def _recycle_handles(st, sw):
+    out = []
+    for h in list(st["rig"].loop._scheduled):
+        if h._cancelled:
+            continue
+        f = getattr(h._callback, "func", None)
+        if getattr(f, "__name__", "") == "_recycle_passed" and getattr(f, "__self__", None) is sw:
+            out.append(h)
+    return out
+
+
 def _reset(st, case):
     sc = st["sc"]
     for sw in st["sw"]:
-        for h in _wake_handles(st, sw):
+        for h in _wake_handles(st, sw) + _recycle_handles(st, sw):
             h.cancel()
+        sw._mutes.clear()
+        sw.recycle_clear_time = None
     sc._active_timed_switches.clear()
     sc._timed_switch_handler_delay.clear()
     for i, sw in enumerate(st["sw"]):
@@ -169,7 +205,7 @@ def _settle(st):
     for _ in range(60):
         rig.advance(0)
         now = rig.now()
-        due = any(h.when() <= now for sw in st["sw"] for h in _wake_handles(st, sw))
+        due = any(h.when() <= now for sw in st["sw"] for h in _wake_handles(st, sw) + _recycle_handles(st, sw))
         if not due and not ev.event_queue and not rig.loop._ready:
             break
 
@@ -256,6 +292,10 @@ def _run(st, case):
                 else:
                     b = sc.is_state(sw, s_, ms)
                 trace.append(["q", _rel(st), swi, int(bool(b))])
+            elif kind == "mute":
+                sw.mute(["c03_src", "ball_search"][o[3]])
+            elif kind == "unmute":
+                sw.unmute(["c03_src", "ball_search"][o[3]])
             _settle(st)
         target = st["t0"] + case["end"] / 8.0
         if target > rig.now():
@@ -269,13 +309,16 @@ def _run(st, case):
             crashed = "%s: %s" % (type(exc["exception"]).__name__, exc["exception"])
         trace.append(["crash", _rel(st), crashed[:200]])
     st["trace"] = None
-    out = {"trace": trace, "final": [], "wakes": [], "cur": [], "initreg": st["initreg"], "invert": st["invert"],
+    out = {"trace": trace, "final": [], "wakes": [], "cur": [], "rc": [], "muted": [], "win": st["win"],
+           "initreg": st["initreg"], "invert": st["invert"],
            "lc0": int(round((-100000 - st["t0"]) * 1e6))}
     for sw in st["sw"]:
         out["final"].append([int(sw.state), int(sw.hw_state), int(round((sw.last_change - st["t0"]) * 1e6))])
         out["wakes"].append(sorted(int(round((h.when() - st["t0"]) * 1e6)) for h in _wake_handles(st, sw)))
         rec = sc._timed_switch_handler_delay.get(sw)
         out["cur"].append([] if rec is None else [int(round((rec[1] - st["t0"]) * 1e6))])
+        out["rc"].append(sorted(int(round((h.when() - st["t0"]) * 1e6)) for h in _recycle_handles(st, sw)))
+        out["muted"].append(int(sw.is_muted))
     if crashed:
         try:
             rig.stop()
@@ -299,6 +342,10 @@ def _op(o):
         return "(OAdd %s %s %s)" % (zlit(o[3]), blit(o[4]), zlit(o[5]))
     if k == "rem":
         return "(ORem %s %s %s)" % (zlit(o[3]), blit(o[4]), zlit(o[5]))
+    if k == "mute":
+        return "(OMute %s)" % zlit(o[3])
+    if k == "unmute":
+        return "(OUnmute %s)" % zlit(o[3])
     return "(OQuery %s %s)" % (blit(o[3]), zlit(o[4]))
 
 
@@ -308,8 +355,9 @@ def coq_case(case, out):
     for i in range(NSW):
         ops = coqlist("(%s, %s)" % (zlit(o[0] * GRID), _op(o)) for o in case["ops"] if o[1] == i)
         reg = out["initreg"][i]
-        ins.append("((%s, %s, %s, %s), (%s, %s), %s, %s, (%s, %s))" % (
+        ins.append("((%s, %s, %s, %s, %s), (%s, %s), %s, %s, (%s, %s))" % (
             blit(out["invert"][i]), blit(case["init"][i]), blit(case["init"][i] ^ out["invert"][i]), zlit(out["lc0"]),
+            zlit(out["win"][i]),
             coqlist("(%s,%s)" % (zlit(c), zlit(m)) for c, m in reg[0]),
             coqlist("(%s,%s)" % (zlit(c), zlit(m)) for c, m in reg[1]),
             tab, ops, zlit(case["end"] * GRID), zlit(FUEL)))
@@ -322,6 +370,8 @@ def coq_case(case, out):
         rows.append([9] + out["final"][i])
         rows.append([8] + out["wakes"][i])
         rows.append([7] + out["cur"][i])
+        rows.append([6] + out["rc"][i])
+        rows.append([5, out["muted"][i]])
         exps.append(coqlist(zlist(r) for r in rows))
     return "(%s, %s)" % (coqlist(ins), coqlist(exps))
 
@@ -332,8 +382,11 @@ HDR = "From C03 Require Import Model.\n"
 # ------------------------------------------------------------------------------------------------
 # oracle: trace acceptor written from the property text (independent of the Coq model)
 class Spec:
-    def __init__(self, inv, state, initreg):
+    def __init__(self, inv, state, initreg, win=0):
         self.inv = inv
+        self.win = win              # ignore window (us); 0 = none
+        self.open = None            # [end_us, state the window was opened for]
+        self.muted = set()
         self.state = state
         self.raw = state ^ inv
         self.lc = None              # grid time (us) of the last real change; None = long ago
@@ -344,7 +397,15 @@ class Spec:
         self.removed = set()        # callbacks of registrations removed and not re-added since
         for s_ in (0, 1):
             for cb, ms in initreg[s_]:
-                self.add(None, cb, s_, ms)
+                if cb not in (1010, 1011):      # the window logic below stands for _post_events_with_recycle
+                    self.add(None, cb, s_, ms)
+
+    def tick(self, t):
+        """the ignore window ends at or before t: one catch-up post iff the state differs from the posted one"""
+        if self.open is not None and self.open[0] <= t:
+            if self.state != self.open[1]:
+                self.pend.append([-1, 1000 + self.state, self.open[0]])
+            self.open = None
 
     def add(self, t, cb, s_, ms):
         rid = self.nid
@@ -370,11 +431,19 @@ class Spec:
             return
         self.state = v
         self.lc = t
+        self.pend = []              # every real change ends the holds of the previous state, muted or not
+        self.now_due = []
+        if self.muted:              # a muted switch updates its state but triggers nothing
+            return
         self.pend = [[r[0], r[1], t + r[3] * 1000] for r in self.regs if r[2] == v and r[3] > 0]
         self.now_due = [[r[0], r[1]] for r in self.regs if r[2] == v and r[3] == 0]
+        if self.win and self.open is None:
+            self.open = [t + self.win, v]
+            self.now_due.append([-1, 1000 + v])
 
     def fired(self, t, cb):
         """an invocation of callback cb observed at time t: must discharge an obligation"""
+        self.tick(t)
         if self.lc == t:
             for x in self.now_due:
                 if x[1] == cb:
@@ -393,12 +462,13 @@ class Spec:
     def overdue(self, t, strict):
         """obligations that should have been discharged before an operation at time t"""
         res = []
+        self.tick(t)
         if self.now_due:
-            res.append("untimed-missed")
+            res.append("ignore-window-post-missed" if all(x[0] == -1 for x in self.now_due) else "untimed-missed")
             self.now_due = []
         late = [x for x in self.pend if (x[2] < t if strict else x[2] <= t)]
         if late:
-            res.append("timed-missed")
+            res.append("ignore-window-post-missed" if all(x[0] == -1 for x in late) else "timed-missed")
             self.pend = [x for x in self.pend if x not in late]
         return res
 
@@ -409,7 +479,7 @@ def oracle(case, out):
     def fail(sig, what):
         if not any(f["sig"] == sig for f in fails):
             fails.append({"sig": sig, "what": what})
-    specs = [Spec(out["invert"][i], case["init"][i], out["initreg"][i]) for i in range(NSW)]
+    specs = [Spec(out["invert"][i], case["init"][i], out["initreg"][i], out["win"][i]) for i in range(NSW)]
     acts = case["acts"]
     ops = case["ops"]
     pending_q = None
@@ -430,6 +500,10 @@ def oracle(case, out):
                 sp.add(t, o[3], o[4], o[5])
             elif o[2] == "rem":
                 sp.rem(o[3], o[4], o[5])
+            elif o[2] == "mute":
+                sp.muted.add(o[3])
+            elif o[2] == "unmute":
+                sp.muted.discard(o[3])
             else:
                 held = (t - sp.lc) if sp.lc is not None else 10 ** 15
                 pending_q = [o[1], int(sp.state == o[3] and (o[4] == 0 or held >= o[4] * 1000))]
@@ -470,8 +544,14 @@ def oracle(case, out):
         w = out["wakes"][i]
         if len(w) > 1 or w != out["cur"][i]:
             fail("orphan-wakeup", "switch s%d: wake-ups in the loop %r, recorded %r" % (i, w, out["cur"][i]))
-        if sp.pend and (not w or w[0] > min(x[2] for x in sp.pend)):
-            fail("wakeup-missing", "switch s%d: handlers pending for %r but wake-ups %r" % (i, sorted(x[2] for x in sp.pend), w))
+        if out["muted"][i] != int(bool(sp.muted)):
+            fail("mute-state", "switch s%d: is_muted %d" % (i, out["muted"][i]))
+        want_rc = [sp.open[0]] if sp.open is not None else []
+        if out["rc"][i] != want_rc:
+            fail("ignore-window", "switch s%d: pending window-end timers %r, expected %r" % (i, out["rc"][i], want_rc))
+        hp = [x for x in sp.pend if x[0] >= 0]
+        if hp and (not w or w[0] > min(x[2] for x in hp)):
+            fail("wakeup-missing", "switch s%d: handlers pending for %r but wake-ups %r" % (i, sorted(x[2] for x in hp), w))
     return fails
 
 
